@@ -123,6 +123,17 @@ def check(ctx: Ctx) -> str:
     rv = repo.func("filters:do_reverse")
     ctx.check("value[::-1]" in ast.unparse(rv.node) and "reversed(value)" in ast.unparse(rv.node), "reverse", "filters:do_reverse", "reverse", "reverse must reverse strings by slicing and iterables with reversed()", rv.loc())
     fresh_list_rule(ctx, "R8")
+    ctx.rule("R8", "map: the attribute form is chosen only when no filter name was given - prepare_map's attribute branch is guarded by `not args and 'attribute' in kwargs`")
+    pm = repo.func("filters:prepare_map")
+    ifs = [i_ for i_ in ast.walk(pm.node) if isinstance(i_, ast.If) and "'attribute' in kwargs" in ast.unparse(i_.test)]
+    ctx.need(len(ifs) == 1, "prepare_map: the attribute branch was not found")
+    from ..normalize import atoms as _atoms
+
+    at_ = set(_atoms(ifs[0].test, True)) | set(astq.guard_atoms(pm.node, ifs[0]))
+    ctx.check(at_ == {("args", False), ("'attribute' in kwargs", True)}, "map:attribute-branch", "filters:prepare_map", f"attribute branch under {sorted(at_)}",
+              f"prepare_map takes the attribute-lookup branch under {sorted(at_)} (required: no positional filter name and an `attribute` keyword): `map('sum', attribute='n')` then never calls the named filter and silently yields the attribute lookup",
+              pm.loc(ifs[0]))
+
     return __doc__ or ""
 
 
